@@ -95,6 +95,7 @@ func genStop(c *ctx) {
 		bad      []string
 		outcome  string
 		dur      time.Duration
+		remain   int      // writes of the stop's direction still to come in a run that nobody stops
 		keys     [][]byte // who == client-keys: what is typed after the Ctrl-C that opens the question
 		choice   int      // ... and the entry that sequence selects (0 keep, 1 delete, 2 continue)
 	}
@@ -109,11 +110,11 @@ func genStop(c *ctx) {
 		cfg.hookTunnel = true // ... whose writes are stop boundaries like the in-band ones
 		tops := stopTree(rng, root, cfg.directory)
 		counts := baselineCounts(cfg, tops, root)
-		per := c.pick(15, 90)
+		per := c.pick(18, 96)
 		for k := 0; k < per; k++ {
 			s := &sc{cfg: cfg, tops: tops, root: root}
 			// stratified: every way of stopping occurs in every base
-			s.who = []string{"client", "server", "client-prompt", "client-keys", "client-after-continue"}[k%5]
+			s.who = []string{"client", "server", "client-prompt", "client-keys", "client-after-continue", "client-tmux-keys"}[k%6]
 			s.del = s.who != "server" && c.rng.Intn(2) == 0
 			if s.who == "client-keys" {
 				// the stop question driven by arbitrary navigation keys: Ctrl-C opens it, some moves,
@@ -121,7 +122,7 @@ func genStop(c *ctx) {
 				// q (continue, from anywhere); entries: 0 keep, 1 delete, 2 continue; no wrap-around.
 				// Every (entry under the cursor, final key) pair occurs: the moves first wander, then
 				// go up to the top and down to the target entry
-				combo := (k/5 + 2*b) % 9
+				combo := (k/6 + 2*b) % 9
 				target := combo % 3
 				nexts := [][]byte{{'\t'}, {'j'}, {0x0e}, {0x1b, '[', 'B'}}
 				prevs := [][]byte{{'k'}, {0x10}, {0x1b, '[', 'A'}, {0x1b, '[', 'Z'}}
@@ -158,13 +159,27 @@ func genStop(c *ctx) {
 				s.choice = cur
 				s.del = cur == 1
 			}
+			if s.who == "client-tmux-keys" {
+				// the same question answered from inside tmux control mode (tmux -CC types keys as
+				// `send -t %<pane> 0x..`): pane ids of one and of two digits, the entry reached by 0-2 "next" keys
+				combo := (k/6 + b) % 6
+				pane := []string{"3", "12"}[combo%2]
+				tk := func(hex string) []byte { return []byte("send -t %" + pane + " " + hex + "\r") }
+				s.keys = [][]byte{tk("0x3")}
+				for n := 0; n < combo/2; n++ {
+					s.keys = append(s.keys, tk("0xe"))
+				}
+				s.keys = append(s.keys, tk("0xd"))
+				s.choice = combo / 2
+				s.del = s.choice == 1
+			}
 			s.dir = c.rng.Intn(2)
 			if counts[s.dir] > 0 {
 				s.idx = c.rng.Intn(counts[s.dir] + 1)
 			}
 			s.preexist = c.rng.Intn(2) == 0
 			if s.who == "client-after-continue" {
-				s.del = (k/5)%2 == 1
+				s.del = (k/6)%2 == 1
 				// early in the data direction, so that much of the transfer is left after the continue
 				s.dir = dirS2C
 				if cfg.upload {
@@ -172,14 +187,23 @@ func genStop(c *ctx) {
 				}
 				s.idx = counts[s.dir]/6 + c.rng.Intn(counts[s.dir]/6+1)
 			}
+			if s.who == "client-keys" || s.who == "client-tmux-keys" {
+				// early in the data direction: most of the transfer is still to come when the keys are typed
+				s.dir = dirS2C
+				if cfg.upload {
+					s.dir = dirC2S
+				}
+				s.idx = 2 + c.rng.Intn(counts[s.dir]/5+1)
+			}
 			if pr := os.Getenv("VERIF_STOP_PROBE"); pr != "" {
 				// investigation aid: VERIF_STOP_PROBE="who dir idx" pins the stop of every case
 				fmt.Sscanf(pr, "%s %d %d", &s.who, &s.dir, &s.idx)
 				s.del = false
 			}
+			s.remain = counts[s.dir] - s.idx
 			s.desc = fmt.Sprintf("stop by %s delete=%v at %s write #%d/%d preexisting=%v :: %s", s.who, s.del,
 				[]string{"c2s", "s2c"}[s.dir], s.idx, counts[s.dir], s.preexist, describeCfg(cfg))
-			if s.who == "client-keys" {
+			if s.who == "client-keys" || s.who == "client-tmux-keys" {
 				s.desc += fmt.Sprintf(" keys=%q selects entry %d", s.keys, s.choice)
 			}
 			cases = append(cases, s)
@@ -213,13 +237,20 @@ func genStop(c *ctx) {
 		var stopAt time.Time
 		var keysMu sync.Mutex
 		var throttle atomic.Int64 // milliseconds every further write of the link takes
+		var during map[string]treeEntry // the destination at the moment the stop is delivered
+		markStop := func() {
+			d, _ := snapshotTree(dest)
+			keysMu.Lock()
+			during, stopAt = d, time.Now()
+			keysMu.Unlock()
+		}
 		inner := atWriteSync(s.dir, s.idx, func() {
 			for k := 0; k < 2000; k++ {
 				runMu.Lock()
 				r := run
 				runMu.Unlock()
 				if r != nil {
-					stopAt = time.Now()
+					markStop()
 					switch s.who {
 					case "client":
 						r.filter.StopTransferringFiles(s.del)
@@ -237,8 +268,10 @@ func genStop(c *ctx) {
 					case "client-keys":
 						// a slow link from here on: the legacy protocols go on sending while the question
 						// is open, the transfer must not be over before the last key is typed
-						throttle.Store(60)
-						stopAt = time.Time{}
+						throttle.Store(80)
+						keysMu.Lock()
+						stopAt, during = time.Time{}, nil
+						keysMu.Unlock()
 						go func() {
 							r.cliIn.Write([]byte{0x03})
 							time.Sleep(250 * time.Millisecond)
@@ -247,9 +280,24 @@ func genStop(c *ctx) {
 								time.Sleep(40 * time.Millisecond)
 							}
 							if s.choice != 2 {
-								keysMu.Lock()
-								stopAt = time.Now()
-								keysMu.Unlock()
+								markStop()
+							}
+							r.cliIn.Write(s.keys[len(s.keys)-1])
+						}()
+					case "client-tmux-keys":
+						throttle.Store(80)
+						keysMu.Lock()
+						stopAt, during = time.Time{}, nil
+						keysMu.Unlock()
+						go func() {
+							r.cliIn.Write(s.keys[0]) // Ctrl-C in control-mode spelling: opens the question
+							time.Sleep(250 * time.Millisecond)
+							for _, k := range s.keys[1 : len(s.keys)-1] {
+								r.cliIn.Write(k)
+								time.Sleep(40 * time.Millisecond)
+							}
+							if s.choice != 2 {
+								markStop()
 							}
 							r.cliIn.Write(s.keys[len(s.keys)-1])
 						}()
@@ -257,7 +305,9 @@ func genStop(c *ctx) {
 						// Ctrl-C, a long think, continue - and shortly afterwards the real stop; from the
 						// first Ctrl-C on the link is slow, so that the second one lands inside the transfer
 						throttle.Store(25)
-						stopAt = time.Time{}
+						keysMu.Lock()
+						stopAt, during = time.Time{}, nil
+						keysMu.Unlock()
 						go func() {
 							r.cliIn.Write([]byte{0x03})
 							time.Sleep(2700 * time.Millisecond) // more than half the server's timeout
@@ -269,9 +319,7 @@ func genStop(c *ctx) {
 								r.cliIn.Write([]byte{'j'})
 								time.Sleep(40 * time.Millisecond)
 							}
-							keysMu.Lock()
-							stopAt = time.Now()
-							keysMu.Unlock()
+							markStop()
 							r.cliIn.Write([]byte{'\r'})
 						}()
 					default:
@@ -329,13 +377,32 @@ func genStop(c *ctx) {
 				}
 			}
 		}
+		keysMu.Lock()
+		atStop := during
+		keysMu.Unlock()
+		if !s.del && atStop != nil {
+			// a plain stop (or a continue) deletes nothing: whatever stood at the destination when the
+			// stop was delivered - completed files, the partial one - is still there afterwards
+			for k := range atStop {
+				if _, ok := after[k]; !ok {
+					s.bad = append(s.bad, "plain-stop-deleted: "+k+" was at the destination when the plain stop was delivered and is gone")
+					break
+				}
+			}
+		}
 		if !s.del && stopped == "Stopped and deleted" {
 			s.bad = append(s.bad, "deleted-without-request: the user chose a plain stop (or to continue), shown: Stopped and deleted")
 		}
-		if s.who == "client-keys" && s.outcome != "hung" {
+		if (s.who == "client-keys" || s.who == "client-tmux-keys") && s.outcome != "hung" {
 			want := []string{"Stopped", "Stopped and deleted", "success"}[s.choice]
 			if s.outcome != want && s.outcome != "success" {
 				s.bad = append(s.bad, fmt.Sprintf("wrong-choice: the keys select entry %d (%s), the transfer ended as %q", s.choice, want, s.outcome))
+			}
+			begun := s.idx >= 1+s.dir // the client is in its transfer once the ACT has gone out (c2s #1 / s2c #2 on): keys typed earlier are shell input
+			if s.choice != 2 && s.outcome == "success" && s.remain >= 12 && begun {
+				// the link is slow from the first key on (80 ms per write): with 12 and more writes still
+				// to come the transfer cannot have been over before the last key was typed
+				s.bad = append(s.bad, fmt.Sprintf("stop-ignored: the keys select entry %d (%s) with %d writes still to come, the transfer ran to success", s.choice, want, s.remain))
 			}
 		}
 		if !stopAt.IsZero() && s.outcome == "error" {
